@@ -207,6 +207,10 @@ def document(input_file: str, settings: Settings):
         prefix = prefix if prefix is not None else last_dir_element
         new_settings.rst.prefix = prefix
 
+        # The output directory may lie inside the input tree. It is never walked:
+        # every index.rst written for it would create another directory to descend into
+        output_dir = os.path.abspath(output_path) if output_path is not None else None
+
         # Walk dir and add cmake files to list
         for root, subdirs, filenames in os.walk(
                 input_path, topdown=True, followlinks=settings.input.follow_symlinks):
@@ -224,7 +228,7 @@ def document(input_file: str, settings: Settings):
                         root,
                         os.path.join(
                             subdir,
-                            ""))):
+                            ""))) or os.path.abspath(os.path.join(root, subdir)) == output_dir:
                     subdirs.remove(subdir)
 
             # Check if any files match the exclusion filters
